@@ -1,0 +1,21 @@
+//go:build verif
+
+package datadog
+
+// Contracts checked by /verif/gvc. Comment-only file (build tag verif).
+// C16: every flush request is answered through exactly one completion path (calls(Name): number of calls named
+// Name executed so far by the function; calls(goK): executions of its K-th go statement).
+// SendMetricsAsync starts exactly one collecting goroutine and leaves the callback to it; the collector calls it
+// exactly once, after it has gathered the results or the context is done.
+//@ func (*Client).SendMetricsAsync
+//@   requires d != nil && cb != nil && metrics != nil
+//@   ensures  calls(cb) == 0 && calls(go1) == 1
+//@   modifies everything
+//@ func (*Client).SendMetricsAsync$2
+//@   requires cb != nil
+//@   loop 1 invariant calls(cb) == 0 && cb != nil
+//@   ensures  calls(cb) == 1
+//@   modifies everything
+//@ func (*Client).processMetrics
+//@   trusted
+//@   modifies everything
